@@ -96,6 +96,14 @@ def _judge_filter(ck, rule, fn, v, w, worker=None, suffix=""):
             conds.extend(c[1] if c[0] == "and" else [c])
         ok = want in conds
         found = [T.show(c) for c in conds]
+    elif v[0] == "comp" and v[1] == "list" and len(v[3]) == 1 and worker is not None and v[2][0] == "app" \
+            and v[2][1] == worker.qualname:
+        # in-process form after flattening: [align(q) for q in queries if <conditions on align(q)>]
+        conds = []
+        for c in v[3][0][1]:
+            conds.extend(c[1] if c[0] == "and" else [c])
+        ok = T.mk_attr(v[2], "alignedPairs") in conds
+        found = [T.show(c)[:80] for c in conds] or ["no filter"]
     elif v[0] == "call" and v[1].split(".")[0] == "p_tqdm":
         ok = False
         found = ["no filter"]
